@@ -128,7 +128,8 @@ def run(ctx):
                 text = _canon(defs[-1].value) if defs else text
             masks.append((nid, text, [src(a) for a in c.args[1:]]))
         if name == "draw":
-            cc = find_stmt("$$S = concatenate([$$S, $$x])", f.node)
+            # the accumulated batch of points (its density rows are joined by a sibling statement of the same shape)
+            cc = [x_ for x_ in find_stmt("$$S = concatenate([$$S, $$x])", f.node) if "log_q" not in src(x_[1]["S"]) and "log_q" not in src(x_[1]["x"])]
             samp = src(cc[0][1]["x"]) if len(cc) == 1 else "x"
             acc_name = src(cc[0][1]["S"]) if len(cc) == 1 else "samples"
         else:
@@ -143,7 +144,7 @@ def run(ctx):
             ctx.ob("R-ORDER", "C09.4", f, "order: hypercube mask -> prior evaluated on the surviving points (unit_hypercube=True) -> finite-prior mask -> result", len(ev) == 1 and fa.dominates(cube[0][0], ev[0][0]) and fa.dominates(ev[0][0], prior[0][0]) and any(k.arg == "unit_hypercube" and isinstance(k.value, ast.Constant) and k.value.value is True for k in ev[0][1].keywords), "")
             # results: what is concatenated / returned is bound after the last mask
             if name == "draw":
-                cat = fa.find(lambda s: match_stmt("$$S = concatenate([$$S, $$x])", s) is not None)
+                cat = fa.find(lambda s: (lambda b_: b_ is not None and src(b_["x"]) == samp)(match_stmt("$$S = concatenate([$$S, $$x])", s)))
                 ctx.ob("R-ORDER", "C09.4", f, "only doubly masked points are appended to the returned batch", len(cat) == 1 and fa.dominates(prior[0][0], cat[0]) and not _rebinds(fa, samp, prior[0][0], cat[0]), "")
             else:
                 rets = fa.find(lambda s: isinstance(s, ast.Return))
